@@ -14,7 +14,7 @@ use std::collections::{BTreeMap, BTreeSet};
 const STREAM: u64 = 6;
 
 pub fn run(ctx: &Ctx) -> Report {
-    let n = ctx.cases(12_000, 400_000);
+    let n = ctx.cases(40_000, 2_000_000);
     let local = run_cases(ctx, n, |case, l| one_case(ctx, case, l));
     let mut rep = Report::new(
         "exploration",
